@@ -227,7 +227,7 @@ class Factory(object):
     # ------------------------------------------------------------------ list graders
     def listgrader(self, depth=1):
         rng = self.rng
-        mode = rng.choice(['flat', 'flat', 'subgrader_list', 'grouped', 'multi_answers', 'siblings'])
+        mode = rng.choice(['flat', 'flat', 'subgrader_list', 'grouped', 'multi_answers', 'siblings', 'mixed_items', 'item_kind'])
         cfg = {'partial_credit': rng.random() < 0.7}
         if mode in ('flat', 'multi_answers'):
             n = rng.randint(2, 4)
@@ -272,6 +272,41 @@ class Factory(object):
             desc = {'class': 'ListGrader', 'mode': 'siblings', 'config': cfg, 'answers': answers}
             return {'cls': 'ListGrader', 'desc': desc, 'make': make, 'ninputs': 3, 'good': good, 'partial': partial_in,
                     'wrong': [['1', '2', '3'], ['x', 'q', '2*x'], ['3*x', 'x+', '2*x'], ['sibling_2', 'x', 'x']]}
+        if mode == 'mixed_items':
+            # one item grader of every other kind side by side in an ordered list
+            def make(**ov):
+                import mitxgraders as M
+                c = dict(cfg)
+                c.update(ov)
+                return M.ListGrader(answers=['[1,2]', '[1,2)', 'a_{1}+x', '1, 2', ({'expect': 'cat', 'msg': 'use {braces}'}, 'dog')],
+                                    subgraders=[M.MatrixGrader(max_array_dim=1), M.IntervalGrader(),
+                                                M.FormulaGrader(variables=['x'], numbered_vars=['a']),
+                                                M.SingleListGrader(subgrader=M.NumericalGrader(), ordered=True), M.StringGrader(case_sensitive=False)],
+                                    ordered=True, **c)
+            desc = {'class': 'ListGrader', 'mode': mode, 'config': cfg,
+                    'subgraders': ['MatrixGrader', 'IntervalGrader', 'FormulaGrader(numbered)', 'SingleListGrader(Numerical)', 'StringGrader']}
+            return {'cls': 'ListGrader', 'desc': desc, 'make': make, 'ninputs': 5,
+                    'good': [['[1,2]', '[1,2)', 'x+a_{1}', '1,2', 'CAT'], ['[2,4]/2', '[1, 4/2)', 'a_{1}+x+0', '1, 1+1', 'dog']],
+                    'partial': [['[1,2]', '(1,2)', 'x', '1', 'bird'], ['[1,3]', '[1,2]', 'a_{2}+x', '2,1', 'cat']],
+                    'wrong': [['[1,2,3]', '[1,2', 'a_{1}+', '1,,2', ''], ['1', '1,2', 'y', 'a,b', '{}']]}
+        if mode == 'item_kind':
+            # unordered list over one non-trivial item grader kind
+            kind = rng.choice(['interval', 'matrix', 'singlelist_formula'])
+            toks = {'interval': ['[1,2]', '(0,1)', '[3,4)'], 'matrix': ['[1,2]', '[3,4]', '[0,1]'],
+                    'singlelist_formula': ['x, 2*x', 'x^2, 1', '3, x']}[kind]
+            ordered = rng.random() < 0.4
+
+            def make(**ov):
+                import mitxgraders as M
+                c = dict(cfg)
+                c.update(ov)
+                sg = {'interval': lambda: M.IntervalGrader(), 'matrix': lambda: M.MatrixGrader(max_array_dim=1, entry_partial_credit='proportional'),
+                      'singlelist_formula': lambda: M.SingleListGrader(subgrader=M.FormulaGrader(variables=['x']))}[kind]()
+                return M.ListGrader(answers=list(toks), subgraders=sg, ordered=ordered, **c)
+            desc = {'class': 'ListGrader', 'mode': mode, 'item_kind': kind, 'ordered': ordered, 'config': cfg, 'answers': toks}
+            bad = {'interval': '[9,9]', 'matrix': '[9,9]', 'singlelist_formula': 'x, 9'}[kind]
+            return {'cls': 'ListGrader', 'desc': desc, 'make': make, 'ninputs': 3, 'good': [list(toks), list(reversed(toks))],
+                    'partial': [[toks[0], bad, toks[2]], [toks[1], toks[0], bad]], 'wrong': [[bad, bad, bad], ['', toks[1], '[1,2'], [toks[0], 'x,,y', '[1;2]']]}
         if mode == 'subgrader_list':
             def make(**ov):
                 import mitxgraders as M
